@@ -350,6 +350,7 @@ NormEv(ev) == IF DistanceCall(ev) /\ ev.ok = 1 /\ Has(ev.res, "fn")
 DoColl(ev)  == Result(ev.s, CollOutcome(ev.s, ev.f, ev.mode, ev.deflt, ev.mts), ev, "C03")
 DoConst(ev) == Result(ev.s, ConstOutcome(ev.s, ev.f, ev.v), ev, "C03")
 DoVar(ev)   == Result(ev.s, VarOutcome(ev.s, ev.f, ev.vh, ev.pr = 1, ev.terms), ev, "C03")
+DoUNode(ev) == Result(ev.s, NodeOutcome(ev.s, ev.f, ev.lvl, ev.kids), ev, "C01")
 DoBin(ev)   == LET out == BinaryOutcome(ev.op, ev.r, ev.a, ev.b) IN
                /\ IF ev.ok = 1
                   THEN /\ edges' = AdoptEdge(ev.r, ev.res)
@@ -596,6 +597,7 @@ Step ==
          [] ev.e = "Coll"    -> DoColl(ev)
          [] ev.e = "Const"   -> DoConst(ev)
          [] ev.e = "Var"     -> DoVar(ev)
+         [] ev.e = "UNode"   -> DoUNode(ev)
          [] ev.e = "Bin"     -> DoBin(ev)
          [] ev.e = "Un"      -> DoUn(ev)
          [] ev.e = "Sat"     -> DoSat(ev)
@@ -608,6 +610,7 @@ Step ==
          [] ev.e = "EvalAt"  -> DoEvalAt(ev)
          [] ev.e = "Bulk"    -> DoBulk(ev)
          [] ev.e = "Expect"  -> DoExpect(ev)
+         [] ev.e \in {"Hold", "Drop"} -> Query(IF ev.ok = 0 THEN {V("C06", "edge-copies-failed-" \o ev.err)} ELSE {})
          [] ev.e \in {"ClearCT", "RmStale", "ClearAll"} -> DoCache(ev)
          [] ev.e = "Reorder" -> DoReorder(ev)
          [] ev.e = "Write"   -> DoWrite(ev)
